@@ -148,7 +148,11 @@ func timeFree(res *workerResult) []anomaly {
 			t := opTable(r.Kind)
 			k := pk{t, r.Name}
 			switch {
-			case r.Kind == opAllClasses || r.Kind == opAllFuncs:
+			case r.Kind == opAllClasses || r.Kind == opAllFuncs || r.Kind == opLoadGlobalsFile:
+			case r.Kind == opRegisterGlobal:
+				if r.In <= 0 {
+					add(t, r.Name, "nil-cell", "a fresh context of the VM has no cell for its variable")
+				}
 			case isAdd(r.Kind):
 				if r.Out == 1 {
 					own[k] = r
@@ -282,12 +286,27 @@ var plainModel = porcupine.Model{
 	},
 }
 
-// globals: the first call creates the cell, every later call returns it
+// globals: the first EnsureGlobalZVal creates the cell, or the first loaded file whose top
+// level has the variable registers its own; once a name has a cell every later
+// EnsureGlobalZVal returns that cell. State: 0 absent, -1 a cell the harness cannot see
+// (registered by LoadAndRun; fixed by the next EnsureGlobalZVal), else the cell id.
 var globalModel = porcupine.Model{
 	Init: func() interface{} { return 0 },
 	Step: func(st, in, out interface{}) (bool, interface{}) {
-		s, o := st.(int), out.(int)
-		if s == 0 {
+		s, i, o := st.(int), in.(regIn), out.(int)
+		switch i.kind {
+		case opRegisterGlobal:
+			if s == 0 {
+				return true, i.tok
+			}
+			return true, s
+		case opLoadGlobalsFile:
+			if s == 0 {
+				return true, -1
+			}
+			return true, s
+		}
+		if s <= 0 {
 			return o > 0, o
 		}
 		return o == s, s
@@ -358,13 +377,20 @@ func sequentialWitness(res *workerResult, timeout time.Duration) ([]anomaly, his
 
 // explain names the most telling pair of calls of a partition without a sequential witness.
 func explain(ops []porcupine.Operation) string {
-	if len(ops) > 0 && ops[0].Input.(regIn).kind == opEnsureGlobal {
-		first := ops[0].Output.(int)
-		for _, o := range ops {
-			if o.Output.(int) != first {
-				return fmt.Sprintf("EnsureGlobalZVal returned cell #%d to goroutine %d and cell #%d to goroutine %d", first, ops[0].ClientId, o.Output.(int), o.ClientId)
+	if len(ops) > 0 && opTable(ops[0].Input.(regIn).kind) == tabGlobal {
+		var first *porcupine.Operation
+		for k := range ops {
+			o := ops[k]
+			if o.Input.(regIn).kind != opEnsureGlobal {
+				continue
+			}
+			if first == nil {
+				first = &ops[k]
+			} else if o.Output.(int) != first.Output.(int) {
+				return fmt.Sprintf("EnsureGlobalZVal returned cell #%d to goroutine %d and cell #%d to goroutine %d", first.Output.(int), first.ClientId, o.Output.(int), o.ClientId)
 			}
 		}
+		return "an EnsureGlobalZVal did not return the cell that RegisterGlobalContext had registered for the name before"
 	}
 	var firstOKRet int64 = -1
 	var firstOK porcupine.Operation
